@@ -251,6 +251,22 @@ fn dump(v: &Ver, dom: u32) -> Vec<i64> {
    out
 }
 
+/// `is_empty()` of every read view (f, i0, i1, n) through the serial read trait the generated code calls for the any-empty skip
+fn empties(v: &Ver) -> Vec<i64> {
+   fn flag(f: impl FnOnce() -> bool) -> i64 {
+      match std::panic::catch_unwind(std::panic::AssertUnwindSafe(f)) {
+         Ok(b) => b as i64,
+         Err(_) => 2,
+      }
+   }
+   vec![
+      flag(|| RelIndexRead::is_empty(&ToRelIndex0::to_rel_index(&v.f, &v.c))),
+      flag(|| RelIndexRead::is_empty(&ToRelIndex0::to_rel_index(&v.i0, &v.c))),
+      flag(|| RelIndexRead::is_empty(&ToRelIndex0::to_rel_index(&v.i1, &v.c))),
+      flag(|| RelIndexRead::is_empty(&ToRelIndex0::to_rel_index(&v.n, &v.c))),
+   ]
+}
+
 struct St {
    new: Ver,
    delta: Ver,
@@ -374,7 +390,7 @@ pub fn run(dom: u32, ops: &[&str], steps: &mut Vec<String>) {
                },
                _ => restart(&mut s),
             }
-            steps.push(format!("D {} T {}", join(&dump(&s.delta, dom)), join(&dump(&s.total, dom))));
+            steps.push(format!("D {} T {} E {} {}", join(&dump(&s.delta, dom)), join(&dump(&s.total, dom)), join(&empties(&s.delta)), join(&empties(&s.total))));
          },
          _ => panic!("bad op {}", op),
       }
